@@ -107,6 +107,16 @@ EDITS = [
   '            "batch"                   : "interactive",', 'csc.mahti'),
  ('factory-key-gone', 'C17', 'agent/launch_method/base.py',
   "            LM_NAME_SRUN          : Srun,\n", "", 'launch-method-SRUN-known'),
+ ('filter-no-truncate', 'C18', 'agent/resource_manager/base.py',
+  "            rm_info.node_list   = rm_info.node_list[:rm_info.requested_nodes]",
+  "            rm_info.node_list   = rm_info.node_list[:rm_info.requested_nodes + 1]", '_filter_nodes'),
+ ('filter-agent-not-removed', 'C18', 'agent/resource_manager/base.py',
+  "                    rm_info.agent_node_list.append(rm_info.node_list.pop())",
+  "                    rm_info.agent_node_list.append(rm_info.node_list[-1])", '_filter_nodes'),
+ ('blocked-gpu-not-marked', 'C18', 'agent/resource_manager/base.py',
+  "                    node['gpus'][idx] = rpc.DOWN", "                    node['gpus'][idx] = rpc.FREE", 'blocked'),
+ ('node-index-constant', 'C18', 'agent/resource_manager/base.py',
+  "                      'index' : idx,", "                      'index' : 0,", '_get_node_list'),
 ]
 
 
